@@ -621,6 +621,10 @@ def det_cases(tier):
     # hundreds of clients that follow the same announcement fail at the same instant
     for same in (C.MT_CLIENT_CLOSED, C.MT_RTMA_LOG_ERROR, C.ALL_MESSAGE_TYPES):
         for way in ("rst", "fin"):
+            if tier == "quick" and (way == "fin" or same == C.ALL_MESSAGE_TYPES):
+                continue        # (the quick tier keeps the two cheapest of the six: a few seconds each)
             cases.append(dict(op="burst", n=300 if same != C.ALL_MESSAGE_TYPES else 200, same=same, way=way, arrived=True,
                               wall_s=600))
+    if tier == "quick":
+        cases.append(dict(op="burst", n=100, same=C.ALL_MESSAGE_TYPES, way="rst", arrived=True, wall_s=300))
     return cases
